@@ -182,6 +182,8 @@ theorem pushNone_PX : ∀ (b : B) (b' : B), pushNone b = .ok b' → PX b → PX 
     exact pushDefaultKAll_PX fs 1 fs' h3 hp
   | .dictionary p idx vals index, b', h, hp => by
     simp only [pushNone, ctx_ok] at h
+    split at h
+    · simp [fail] at h
     obtain ⟨idx', h1, h2⟩ := (bind_ok _ _ _).1 h
     cases h2
     simp only [PX] at hp ⊢
